@@ -276,6 +276,11 @@ def run_case(case):
             primitive_truth(case, b, view, points, res)
         except C.RockitRaised as e:
             res["violations"].append(C.exc_violation(ID, e, "primitive-truth"))
+    if not res["violations"]:
+        try:
+            cross_grid_truth(case, b, view, points, grids, res)
+        except C.RockitRaised as e:
+            res["violations"].append(C.exc_violation(ID, e, "cross-grid"))
     # value() of non-signal expressions
     try:
         outs = [ca.MX(C.call("value", st.value, v_mx)), ca.MX(st.value(st.T)), ca.MX(st.value(st.t0))]
@@ -375,6 +380,89 @@ def numeric_layout(case, b, view, grids, prim, qnames, znames, cls, res):
                                           "detail": "grid %s, %dx%d: sol.sample(e)[i,r,c] differs from e(sol.sample "
                                                     "ingredients) by %.3g" % (gtag, shp[0], shp[1], worst)})
                 return
+
+
+def cross_grid_truth(case, b, view, points, grids, res):
+    """Piecewise-constant quantities (controls, per-interval parameters and variables) sampled on a finer grid take, at
+    every point of control interval k, the control-grid value of interval k, and at t=tf the final control-grid value
+    (the extra column for include_last symbols); states and time at the refined points that are integrator points
+    equal the integrator-grid samples."""
+    import casadi as ca
+    spec = case["spec"]
+    st = b.stage
+    m = spec["method"]
+    cls, N, M = m["cls"], m["N"], m["M"]
+    d = m.get("degree", 4)
+    pw = [s_ for s_ in spec.get("controls", []) if not s_.get("order")] + \
+        [s_ for s_ in spec.get("params", []) + spec.get("variables", []) if s_.get("grid") == "control"]
+    xs = [s_ for s_ in spec.get("states", []) if not s_.get("quad")]
+    res["counters"]["cross_grid"] = 0
+    outs, index = [], []
+    for s_ in pw + xs:
+        outs.append(ca.MX(C.call("sample:control", st.sample, b.syms[s_["name"]], grid="control")[1]))
+        index.append((s_["name"], "control", None))
+    for gname, kw in grids:
+        if gname in ("control", "control-"):
+            continue
+        for s_ in pw + (xs if gname == "integrator" else []):
+            outs.append(ca.MX(C.call("sample:%s" % gname, st.sample, b.syms[s_["name"]], grid=gname, **kw)[1]))
+            index.append((s_["name"], gname, kw.get("refine")))
+    if not outs:
+        return
+    F = ca.Function("cg", [view.x, view.p], outs)
+    shapes = {s_["name"]: s_["shape"] for s_ in pw + xs}
+    for w in points:
+        vals = F(w, view.p0)
+        got = {}
+        for (name, gname, ref_), v in zip(index, vals):
+            got[(name, gname, ref_)] = blocks(v, shapes[name][1])
+        for (name, gname, ref_), arr in got.items():
+            if gname == "control":
+                continue
+            vc = got[(name, "control", None)]
+            is_pw = any(s_["name"] == name for s_ in pw)
+            if is_pw:
+                per = M * (ref_ or 1) if gname == "integrator" else M * d
+                n_expected = N * per + (1 if gname == "integrator" else 0)
+                if arr.shape[0] != n_expected:
+                    continue        # block count is the subject of the time-vector-length check
+                worst, where = 0.0, None
+                for i in range(arr.shape[0]):
+                    ref_val = vc[N] if (gname == "integrator" and i == N * per) else vc[i // per]
+                    if not C.finite(ref_val, arr[i]):
+                        continue
+                    e_ = float(np.max(np.abs(ref_val - arr[i]) / (1 + np.abs(ref_val))))
+                    if e_ > worst:
+                        worst, where = e_, i
+                res["evals"] += 1
+                res["counters"]["cross_grid"] += 1
+                if worst > 1e-9:
+                    gt = gname + ("+refine" if ref_ else "")
+                    res["violations"].append({
+                        "kind": "cross-grid", "mech": "C07|piecewise-constant-sample-wrong|%s|%s" % (
+                            gt, "final" if where == arr.shape[0] - 1 and gname == "integrator" else "inner"),
+                        "detail": "%s sampled on %s (refine=%s): point %d of %d differs from the control-grid value of its "
+                                  "interval by %.3g (relative)" % (name, gname, ref_, where, arr.shape[0], worst)})
+                    return
+            elif ref_:
+                base = got.get((name, "integrator", None))
+                if base is None or arr.shape[0] != N * M * ref_ + 1:
+                    continue
+                # the final point is left out: there the refined sample is the end of the last interval's polynomial
+                # and the integrator sample the node variable, equal only where the continuity rows hold
+                sel = arr[::ref_][:-1]
+                base = base[:-1]
+                if not C.finite(sel, base):
+                    continue
+                e_ = float(np.max(np.abs(sel - base) / (1 + np.abs(base))))
+                res["evals"] += 1
+                res["counters"]["cross_grid"] += 1
+                if e_ > 1e-9:
+                    res["violations"].append({
+                        "kind": "cross-grid", "mech": "C07|refined-sample-differs-at-integrator-points",
+                        "detail": "state %s: every %d-th refined sample should be the integrator-grid sample; max "
+                                  "relative difference %.3g" % (name, ref_, e_)})
+                    return
 
 
 def primitive_truth(case, b, view, points, res):
